@@ -74,7 +74,10 @@ func (fst *FSTree) buildFilePath(key string, checkKeyLength bool) (string, error
 	}
 	// build filepath
 	dstPath := filepath.Join(fst.basePath, key) // Join also calls Clean()
-	if !strings.HasPrefix(dstPath, fst.basePath) {
+	// The path must be below the base path: compare with the separator appended, so that sibling
+	// directories that merely share the base path's name as a prefix are out of scope.
+	// Only a query prefix (no key length check) may resolve to the base path itself.
+	if !strings.HasPrefix(dstPath, fst.basePath+string(filepath.Separator)) && (checkKeyLength || dstPath != fst.basePath) {
 		return "", fmt.Errorf("fstree: key integrity check failed, compiled path is %s", dstPath)
 	}
 	// return
